@@ -41,9 +41,20 @@ Definition svc_desc_eqb (fields : bool) (a b : svc_desc) : bool :=
 
 (* the request / response object of a method: present under the key the model says, with the declared
    property names in order *)
+Fixpoint fty_eqb (a b : fty) : bool :=
+  match a, b with
+  | TScalar x, TScalar y => String.eqb x y
+  | TRef x k, TRef y l => String.eqb x y && key_eqb k l
+  | TArray x, TArray y | TMap x, TMap y => fty_eqb x y
+  | _, _ => false
+  end.
+
+(* names AND types: the declared types are translated from the j5s source by the harness (declFTy), only types
+   declared in place fall back to the observed ones *)
 Definition method_schema_ok (obs : env) (ks : key * schema) : bool :=
   match lookup obs (fst ks), snd ks with
-  | Some (SObject ps), SObject qs => list_eqb str_eqb (map p_json qs) (map p_json ps)
+  | Some (SObject ps), SObject qs =>
+      list_eqb str_eqb (map p_json qs) (map p_json ps) && list_eqb fty_eqb (map p_ty qs) (map p_ty ps)
   | _, _ => false
   end.
 
